@@ -369,5 +369,7 @@ func TestC06(t *testing.T) {
 			}
 		}
 	}, propC06)
+	// Custom[T] for user types of every shape x every wild value x position
+	hh.Enumerate(h, "custom-types", c06CustomCells, propC06Custom)
 	_ = fmt.Sprint
 }
